@@ -163,6 +163,15 @@ def translate(qmluic, workdir, programs):
         if res.rc == 0 and res.header is not None:
             return doc, res, rejected
         errs = error_lines(res.stderr)
+        if not errs and 'panicked at' in res.stderr:
+            # the translator crashed: find one program that makes it crash on its own (bisection), drop it, go on
+            culprit = _find_panicking(qmluic, workdir, progs)
+            if culprit is None:
+                raise C.Inconclusive(f'qmluic panics on a batch but on none of its programs alone:\n{res.stderr[-800:]}')
+            i, msg = culprit
+            rejected.append((progs[i], 'PANIC: ' + msg))
+            del progs[i]
+            continue
         if not errs:
             raise C.Inconclusive(f'qmluic failed without a located diagnostic (rc={res.rc}):\n{res.stderr[-1500:]}')
         bad = {}
@@ -176,6 +185,24 @@ def translate(qmluic, workdir, programs):
             rejected.append((progs[i], bad[i]))
             del progs[i]
     raise C.Inconclusive('translate(): did not converge')
+
+
+def _panic_message(stderr):
+    m = re.search(r"panicked at ([^\n]*)\n([^\n]*)", stderr)
+    return (m.group(1).strip() + ': ' + m.group(2).strip())[:300] if m else 'panic'
+
+
+def _find_panicking(qmluic, workdir, progs):
+    """-> (index, message) of a program whose single-program document makes the CLI panic"""
+    idx = list(range(len(progs)))
+    while len(idx) > 1:
+        half = idx[:len(idx) // 2]
+        r = run_cli(qmluic, workdir, Doc([progs[i] for i in half]).text)
+        idx = half if 'panicked at' in r.stderr else idx[len(idx) // 2:]
+    r = run_cli(qmluic, workdir, Doc([progs[idx[0]]]).text)
+    if 'panicked at' in r.stderr:
+        return idx[0], _panic_message(r.stderr)
+    return None
 
 
 # ----------------------------------------------------------------------------------------- analysis
